@@ -39,17 +39,18 @@ TARGETS = {
     "detector/src/alpha16/aw_map.rs#rest2": (["C01", "C08", "C09", "C10"], [(1, 99), (196, 400)]),
     "detector/src/padwing/map.rs#rest2": (["C01", "C08", "C09", "C10"], [(1, 99), (131, 179), (201, 379), (393, 559), (641, 900)]),
     "physics/src/lib.rs#rest2": (["C09", "C10", "C11", "C18"], [(1, 115), (141, 239), (381, 470)]),
-    "physics/src/matching.rs": (["C08", "C09", "C10"], [(1, 130)]),
+    "physics/src/matching.rs": (["C08", "C09", "C10", "C13"], [(1, 130)]),
+    "physics/src/deconvolution/wires.rs": (["C09", "C13"], [(1, 200)]),
     "physics/src/calibration/pads/gain.rs": (["C08", "C10"], [(1, 80)]),
     "physics/src/calibration/pads/baseline.rs": (["C08", "C10"], [(1, 80)]),
     "physics/src/calibration/pads/delay.rs": (["C08", "C10"], [(1, 60)]),
     "physics/src/calibration/wires/gain.rs": (["C08", "C10"], [(1, 80)]),
     "physics/src/calibration/wires/baseline.rs": (["C08", "C10"], [(1, 80)]),
     "physics/src/calibration/wires/delay.rs": (["C08", "C10"], [(1, 60)]),
-    "physics/src/reconstruction.rs": (["C14", "C16"], [(140, 260)]),
-    "physics/src/reconstruction/track_finding.rs": (["C11", "C14", "C15"], [(20, 210)]),
-    "physics/src/reconstruction/track_fitting.rs": (["C14", "C16"], [(20, 200)]),
-    "physics/src/reconstruction/vertex_fitting.rs": (["C14", "C15", "C16"], [(20, 190)]),
+    "physics/src/reconstruction.rs": (["C09", "C14", "C16"], [(140, 260)]),
+    "physics/src/reconstruction/track_finding.rs": (["C09", "C11", "C14", "C15"], [(20, 210)]),
+    "physics/src/reconstruction/track_fitting.rs": (["C09", "C14", "C16"], [(20, 200)]),
+    "physics/src/reconstruction/vertex_fitting.rs": (["C09", "C14", "C15", "C16"], [(20, 190)]),
     "analysis/src/lib.rs": (["C19", "C20"], [(1, 200)]),
     "analysis/src/bin/alpha-g-chronobox-timestamps/main.rs": (["C20"], [(30, 230)]),
     "analysis/src/bin/alpha-g-vertices/main.rs": (["C19"], [(40, 180)]),
